@@ -1,4 +1,5 @@
 import TypifyModel.Proofs.C03
+import TypifyModel.Proofs.C03Contain
 open TypifyModel.C03 TypifyModel.RoundTrip
 #print axioms struct_rt
 #print axioms fields_back
@@ -6,3 +7,8 @@ open TypifyModel.C03 TypifyModel.RoundTrip
 #print axioms de_se_de
 #print axioms roundtrip_value
 #print axioms rt_fixed_point
+#print axioms rt_contains_all
+#print axioms rt_contains
+#print axioms roundtrip_contains
+#print axioms struct_roundtrip_contains
+#print axioms variant_roundtrip_contains
